@@ -614,6 +614,27 @@ def r10_10(ctx: Ctx) -> RuleResult:
     if not overflowing:
         rr.ok(st.loc(), "the numeric tokens cannot spell a literal that overflows a float")
         return rr
+    # a float literal stays a float literal: its text is lexed by the FLOAT rule again (the INT rule also takes an
+    # exponent - `1e+25` - and hands back an integer literal, which prints as 26 digits: not a fixed point)
+    from sa.peval import UNKNOWN as _UNK
+
+    from .model import MObj as _MO
+    from .model import Model as _Mo
+
+    for value in (1.5, 0.1, 2.0, 1e16, 1e25, -1e22, 1e-7, 1e300):
+        model = _Mo(ctx, "R10.10")
+        model.whole_bodies = True
+        text = _MO(model, "jsonpath.filter.FloatLiteral", {"value": value, "volatile": False}).peval_str()
+        if text is _UNK or not isinstance(text, str):
+            raise AnalysisError(f"R10.10: the text of the float literal {value!r} cannot be determined")
+        toks = lex.tokens_of(text)
+        if len(toks) == 1 and toks[0][1] == "FLOAT" and toks[0][2] == text:
+            rr.ok(st.loc(), f"float literal {value!r} prints as `{text}`, a FLOAT token")
+        else:
+            rr.bad(st, st.node, f"the float literal {value!r} prints as `{text}`, which the lexer reads as {[t[1] for t in toks]} - not as one FLOAT token: "
+                   "the recompiled query holds an integer literal and prints differently (the text is not a fixed point)",
+                   construct=f"FloatLiteral: {value!r} -> `{text}` lexed as {[t[1] for t in toks]}")
+            break
     guards = [
         c for c in calls(st.node) if callee_name(c) in ("isinf", "isfinite", "isnan")
     ] + [n for n in ast.walk(st.node) if isinstance(n, ast.Compare) and "inf" in ast.unparse(n)]
